@@ -1,7 +1,7 @@
 ---------------------------- MODULE Trace_Globals ----------------------------
 (* Judges observations of the real scriggo.BuildTemplate / Template.Run / Template.UsedVars:
    one record per line of obs.ndjson
-     {id, sup, ext, init, refs,                    the case, echoed
+     {id, typ, sup, ext, init, refs,               the case, echoed
       outcome,                                     "ok" | "builderror" | "hostpanic-build" | "runerror" | "hostpanic-run"
       out1, out2,                                  bytes rendered by the first and the second Run
       caller1, caller2,                            the caller's variables <<X, Y>> after each Run
@@ -10,12 +10,17 @@
 EXTENDS Globals, TLC, Json, SequencesExt
 CONSTANT DriftEvery        \* the model_drift diagnostic looks at the records whose id is a multiple of it
 
-CaseOf(r) == [sup |-> r.sup, ext |-> r.ext, init |-> r.init, refs |-> r.refs]
+CaseOf(r) == [typ |-> r.typ, sup |-> r.sup, ext |-> r.ext, init |-> r.init, refs |-> r.refs]
 UsedSet(r) == {r.used[i] : i \in 1..Len(r.used)}
 UsesGlobal(r) == \E i \in 1..Len(r.refs) : IsGlobalRef(r.refs[i])
 \* A template that cannot be built is outside this property (C03/C04 territory): such a record is not
 \* judged here; the check counts these records and refuses to pass (exit 2) if there are any.
-NotJudged(r) == r.outcome \in {"builderror", "hostpanic-build"} \/ ~UsesGlobal(r)
+\* Also not judged: a sequence the reference part is not defined for (not WellFormed: counted as ref_undefined by the
+\* check), and a value supplied for a global of type any (a value of static type any cannot be put in Run's map; whether
+\* Run accepts a value of another type for it is not a clause of this property).
+RefUndefined(r) == ~WellFormed(r.ext, r.refs) \/ r.typ \notin {"int", "any"} \/ r.sup \notin {"value", "pointer"}
+NotJudged(r) == RefUndefined(r) \/ r.outcome \in {"builderror", "hostpanic-build"} \/ ~UsesGlobal(r)
+                \/ (r.typ = "any" /\ r.sup = "value")
 
 (* ---- the clauses of the property, on one observation ---- *)
 \* "the value supplied ... is the value observed by every reference": Run completes and every read printed
@@ -49,7 +54,7 @@ ParseVals(t, i, acc) ==
        THEN ParseVals(t, DigitsEnd(t, i + 1), Append(acc, NumAt(t, i + 1, DigitsEnd(t, i + 1), 0)))
        ELSE ParseVals(t, i + 1, acc)
 \* positions (in refs) of the printing reads, in execution order
-ReadPos(refs) == SelectSeq(Idx(refs), LAMBDA i : IsGlobalRef(refs[i]) /\ refs[i].op = "r")
+ReadPos(refs) == SelectSeq(Idx(refs), LAMBDA i : IsGlobalRef(refs[i]) /\ IsRead(refs[i]))
 WritesBefore(refs, i, var) == {refs[j].v : j \in {k \in 1..(i - 1) : IsGlobalRef(refs[k]) /\ refs[k].op = "w" /\ refs[k].var = var}}
 AllWrites(refs, var) == WritesBefore(refs, Len(refs) + 1, var)
 Other(var) == IF var = "X" THEN "Y" ELSE "X"
@@ -72,27 +77,31 @@ ReadSig(r, clause, out, reads) ==
       exp == [k \in 1..Len(reads) |-> reads[k].val]
       k == FirstDiff(vals, exp)
       pos == ReadPos(r.refs)
-  IN IF k > Len(exp) THEN [fam |-> "globals", clause |-> clause, got |-> "extra-output", sup |-> r.sup,
-                           firstref |-> "-", at |-> "-", cross |-> FALSE]
+  IN IF k > Len(exp) THEN [fam |-> "globals", clause |-> clause, got |-> "extra-output", sup |-> r.sup, typ |-> r.typ,
+                           firstref |-> "-", at |-> "-", cross |-> FALSE, op |-> "-", lit |-> FALSE]
      ELSE LET i == pos[k] var == r.refs[i].var IN
-          [fam |-> "globals", clause |-> clause, sup |-> r.sup,
+          [fam |-> "globals", clause |-> clause, sup |-> r.sup, typ |-> r.typ,
            got |-> IF k > Len(vals) THEN "missing" ELSE Kind(r, vals[k], var, i),
-           firstref |-> FirstBodyScope(r.refs, var), at |-> r.refs[i].sc, cross |-> Cross(r.refs, i)]
+           firstref |-> FirstBodyScope(r.refs, var), at |-> r.refs[i].sc, cross |-> Cross(r.refs, i),
+           op |-> r.refs[i].op, lit |-> ViaLit(r.refs[i])]     \* how the failing read is written; is it inside a function literal
 CallerSig(r, clause, got, exp) ==
   LET k == FirstDiff(got, exp) var == IF k = 1 THEN "X" ELSE "Y" IN
-  [fam |-> "globals", clause |-> clause, sup |-> r.sup,
+  [fam |-> "globals", clause |-> clause, sup |-> r.sup, typ |-> r.typ,
    got |-> IF k > Len(got) THEN "missing" ELSE Kind(r, got[k], var, Len(r.refs) + 1),
-   firstref |-> FirstBodyScope(r.refs, var), at |-> "caller", cross |-> FALSE]
+   firstref |-> FirstBodyScope(r.refs, var), at |-> "caller", cross |-> FALSE, op |-> "-", lit |-> FALSE]
+DefaultInLit(refs) == \E i \in 1..Len(refs) : refs[i].op = "d" /\ ViaLit(refs[i])
 Sig(r) ==
   LET e == RefRun(CaseOf(r)) IN
-  IF ~RunsOk(r) THEN [fam |-> "globals", clause |-> "run-failed", sup |-> r.sup, got |-> r.outcome,
-                      firstref |-> FirstBodyScope(r.refs, "X"), at |-> "-", cross |-> FALSE]
+  IF ~RunsOk(r) THEN [fam |-> "globals", clause |-> "run-failed", sup |-> r.sup, typ |-> r.typ, got |-> r.outcome,
+                      firstref |-> FirstBodyScope(r.refs, "X"), at |-> "-", cross |-> FALSE,
+                      \* is there a default expression inside a function literal (the only reference form with its own checker path)
+                      op |-> IF DefaultInLit(r.refs) THEN "d" ELSE "-", lit |-> DefaultInLit(r.refs)]
   ELSE IF ~ReadsOk(r, e) THEN ReadSig(r, "read", r.out1, e.reads1)
   ELSE IF ~CallerOk(r, e) THEN CallerSig(r, "caller", r.caller1, e.caller1)
   ELSE IF ~Reads2Ok(r, e) THEN ReadSig(r, "read-run2", r.out2, e.reads2)
   ELSE IF ~Caller2Ok(r, e) THEN CallerSig(r, "caller-run2", r.caller2, e.caller2)
-  ELSE [fam |-> "globals", clause |-> "usedvars", sup |-> r.sup, got |-> "missing",
-        firstref |-> "-", at |-> "-", cross |-> FALSE]
+  ELSE [fam |-> "globals", clause |-> "usedvars", sup |-> r.sup, typ |-> r.typ, got |-> "missing",
+        firstref |-> "-", at |-> "-", cross |-> FALSE, op |-> "-", lit |-> FALSE]
 
 (* ---- diagnostic only (model_drift): does the implementation-shaped model predict the observation? ---- *)
 Predicts(r, V) == NotJudged(r) \/
@@ -114,7 +123,8 @@ Init == l = 1 /\ nbad = 0
 Next == l <= Len(Obs) /\ l' = l + 1 /\ nbad' = nbad + (IF l \in BadSet THEN 1 ELSE 0)
 Done == l = Len(Obs) + 1 =>
           /\ nbad = Len(BadIdx)
-          /\ ndJsonSerialize("drift.ndjson", <<[aswritten |-> NDriftAsWritten, fixed |-> NDriftFixed, records |-> Len(DriftIdx)]>>)
+          /\ ndJsonSerialize("drift.ndjson", <<[aswritten |-> NDriftAsWritten, fixed |-> NDriftFixed, records |-> Len(DriftIdx),
+                                                  refundef |-> Len(SelectSeq(ObsIdx, LAMBDA i : RefUndefined(Obs[i])))]>>)
           /\ ndJsonSerialize("bad.ndjson",
                 [j \in 1..Len(BadIdx) |-> [k |-> BadIdx[j], id |-> Obs[BadIdx[j]].id, sig |-> Sig(Obs[BadIdx[j]]), nbad |-> nbad]])
 Consumed == TLCGet("stats").diameter - 1 = Len(Obs)
